@@ -568,6 +568,11 @@ def run(ctx):
         problems.append(lg)
         flow.report_obligation_failures(ctx, problems, False)
         return
+    # private copy: the shared build cache is pruned by concurrent builders (the executable vanished mid-run once)
+    from vlib.common import scratch_dir
+    hcopy = os.path.join(scratch_dir("c04_exe"), "c04_%d" % os.getpid())
+    shutil.copy2(hexe, hcopy)
+    hexe = hcopy
     dexe = lean.driver_path("drv_C04")
     if not os.path.exists(dexe):
         flow.report_obligation_failures(ctx, problems + ["driver drv_C04 was not built"], False)
@@ -711,6 +716,10 @@ def run(ctx):
             found = header_mutation_stream(ctx, pair, d, sample_file) or found
     finally:
         shutil.rmtree(d, ignore_errors=True)
+        try:
+            os.unlink(hcopy)
+        except OSError:
+            pass
     ctx.cov["rule"] = ("binary: one evaluation = one load of a written file (model x type x config x file variant x load_method x "
                        "enumerate_vocab) compared with the ARPA-built model on a query file; non-trivial when the load succeeds and the "
                        "model has >= 8 n-grams; distinct by (ARPA hash, type, config, file variant, load method, enumerate). component: "
